@@ -630,8 +630,11 @@ func (w *fsWorld) check(ei int, ev, res string) {
 				continue
 			}
 			if y := onCur(x); y != "" {
-				// on the common part of the two branches: impossible for valid blocks
-				panic("harness: " + x + " is on the abandoned fork and related to " + y + " below the fork point")
+				// related to a transaction on the common part of the two branches: no branch of valid blocks
+				// carries a transaction twice (that is C04's subject; here it can only come from a block the
+				// node mined itself), so nothing is demanded for it
+				w.violate("branch-carries-a-tx-twice/"+fsKind(x)+"-vs-"+fsKind(y), fmt.Sprintf("%s is on the abandoned fork although %s is below the fork point; %s", x, y, shape))
+				continue
 			}
 			if w.expired(x) {
 				w.out.add("fs_abandoned_tx_expired(not required)", 1)
@@ -1364,6 +1367,51 @@ func runForkSwitch() *core.Result {
 	})
 	if got := r.Counters["fs_cases"]; r.Exhaustive && got != int64(total) {
 		r.NotExhaustive(fmt.Sprintf("part C ran %d of %d cases", got, total))
+	}
+	// coverage self-check (non-vacuity): every (old depth, new depth) in 1..3 x 1..3 was seen switching, both
+	// mechanisms, both modes, every placement class, transactions put back and transactions removed
+	if r.Exhaustive {
+		var missing []string
+		sum := func(prefix string) int64 {
+			var n int64
+			for k, v := range r.Counters {
+				if strings.HasPrefix(k, prefix) {
+					n += v
+				}
+			}
+			return n
+		}
+		for o := 1; o <= 3; o++ {
+			for n := 1; n <= 3; n++ {
+				if sum(fmt.Sprintf("fs_switch/obs/old=%d,new=%d/", o, n)) == 0 {
+					missing = append(missing, fmt.Sprintf("switch old=%d new=%d", o, n))
+				}
+			}
+		}
+		for _, k := range []string{"fs_switch/dep/", "fs_switch_no/2", "fs_repooled_tx_observed", "fs_repooled_tx_was_not_pending_before", "fs_newfork_tx_removed_from_pool", "fs_mined_txs",
+			"fs_abandoned_tx_expired(not required)", "fs_block_on_non_current_fork_without_switch", "fs_stable_advance_without_switch",
+			"fs_placement/only-old/plain", "fs_placement/only-old/box", "fs_placement/only-old/sub-tx", "fs_placement/only-new/plain", "fs_placement/only-new/box", "fs_placement/only-new/sub-tx",
+			"fs_placement/both/plain", "fs_placement/both/box", "fs_placement/both/sub-tx", "fs_placement/both(box-overlap)/box", "fs_placement/both(box-overlap)/sub-tx",
+			"fs_placement/neither(pool-only)/plain", "fs_placement/neither(pool-only)/box", "fs_placement/neither(pool-only)/sub-tx"} {
+			if sum(k) == 0 {
+				missing = append(missing, k)
+			}
+		}
+		mech := map[string]int64{}
+		for k, v := range r.Counters {
+			if strings.HasPrefix(k, "fs_switch/") {
+				mech[k[strings.LastIndex(k, "/")+1:]] += v
+			}
+		}
+		if mech["longer-fork"] == 0 || mech["stable-cut"] == 0 {
+			missing = append(missing, "a switch mechanism")
+		}
+		if len(missing) > 0 {
+			r.NotExhaustive("part C coverage self-check: never observed " + strings.Join(missing, "; "))
+		}
+		if n := r.Counters["fs_effort_model_mismatch"]; n > 0 {
+			r.Note("part C: the effort model (which schedules get the pair / triple placements) mispredicted whether the node switches on %d cases; the oracle does not use it", n)
+		}
 	}
 	// per fingerprint: the violation with the smallest position in the enumeration
 	type cand struct {
